@@ -13,6 +13,7 @@ import (
 	"github.com/cossacklabs/acra/keystore"
 	"github.com/cossacklabs/acra/keystore/filesystem"
 	keystoreV2 "github.com/cossacklabs/acra/keystore/v2/keystore"
+	"github.com/cossacklabs/acra/keystore/v2/keystore/api"
 
 	"verifharness/internal/core"
 )
@@ -29,6 +30,7 @@ func init() {
 	core.Register("C18.v1.import", opV1Import)
 	core.Register("C18.v1.classify", opV1Classify)
 	core.Register("C18.v1.migrate", opV1Migrate)
+	core.Register("C18.v1.migrate2", opV1Migrate2)
 }
 
 type pair struct{ name, data []byte }
@@ -341,9 +343,12 @@ type migration struct {
 }
 
 func runV1Migrate(master []byte, fs []pair) (m migration) {
+	return runV1MigrateInto(master, fs, newStore(tgtEnc, tgtSig))
+}
+
+func runV1MigrateInto(master []byte, fs []pair, T api.MutableKeyStore) (m migration) {
 	s := mkV1(master, fs)
 	defer s.close()
-	T := newStore(tgtEnc, tgtSig)
 	sks := keystoreV2.NewServerKeyStore(T)
 	keys, err := filesystem.EnumerateExportedKeys(s.ks)
 	if err != nil {
@@ -412,4 +417,30 @@ func opV1Migrate(a []string) string {
 		fs = append(fs, parsePair(f))
 	}
 	return runV1Migrate(master, fs).String()
+}
+
+// two key stores migrated one after the other into one v2 key store
+func runV1Migrate2(master []byte, fs1, fs2 []pair) (string, api.MutableKeyStore) {
+	T := newStore(tgtEnc, tgtSig)
+	m1 := runV1MigrateInto(master, fs1, T)
+	m2 := runV1MigrateInto(master, fs2, T)
+	if m1.outcome == "panic" || m2.outcome == "panic" {
+		return "panic", T
+	}
+	return fmt.Sprintf("%s %s rings %s", m1.outcome, m2.outcome, showList(m2.rings)), T
+}
+
+func opV1Migrate2(a []string) string {
+	master := core.UnHex(a[0])
+	l1, rest := takeList(a[1:])
+	l2, _ := takeList(rest)
+	var fs1, fs2 []pair
+	for _, f := range l1 {
+		fs1 = append(fs1, parsePair(f))
+	}
+	for _, f := range l2 {
+		fs2 = append(fs2, parsePair(f))
+	}
+	out, _ := runV1Migrate2(master, fs1, fs2)
+	return out
 }
